@@ -317,5 +317,38 @@ func RunLatch(seed int64, dur time.Duration) (out []Ev) {
 		w.T.Log(Ev{"e": "lrel", "b": blk})
 		w.T.Log(Ev{"e": "lprobe", "rb": blk, "completed": completed(same, 5*time.Second)})
 	}
+	// a writer that dies inside the latch: user code running there (here: a merge function) panics after the first column of
+	// the commit has been applied and before the second; the caller recovers. Whatever the library does about the latch, a
+	// reader must not be shown the half-applied row: the only committed version of that row is (0, 0)
+	Q := column.NewCollection(column.Options{Capacity: 64, Vacuum: time.Hour})
+	defer Q.Close()
+	Q.CreateColumn("a", column.ForInt64())
+	Q.CreateColumn("b", column.ForInt64(column.WithMerge(func(v, d int64) int64 {
+		if d == -999 {
+			panic("insufficient funds")
+		}
+		return v + d
+	})))
+	qo, _ := Q.Insert(func(r column.Row) error { r.SetInt64("a", 0); r.SetInt64("b", 0); return nil })
+	func() {
+		defer func() { recover() }()
+		Q.QueryAt(qo, func(r column.Row) error { r.MergeInt64("a", 1); r.MergeInt64("b", -999); return nil })
+	}()
+	type pair struct{ a, b int64 }
+	got := make(chan pair, 1)
+	go func() {
+		Q.QueryAt(qo, func(r column.Row) error {
+			a, _ := r.Int64("a")
+			b, _ := r.Int64("b")
+			got <- pair{a, b}
+			return nil
+		})
+	}()
+	select {
+	case v := <-got:
+		w.T.Log(Ev{"e": "lpanic", "completed": true, "a": int(v.a), "b": int(v.b)})
+	case <-time.After(500 * time.Millisecond):
+		w.T.Log(Ev{"e": "lpanic", "completed": false, "a": 0, "b": 0})
+	}
 	return w.T.Finish()
 }
